@@ -90,6 +90,13 @@ REQUIRED = {
 }
 
 
+# statements the may-analysis cannot tell apart although they are harmless, with the reason (path-sensitive facts)
+EXEMPT = {
+    ("Trajectory.resample_continuous_time_state_list", "[].*:append"):
+        "`values[i].append(v)` runs only when `multiple`, and then `values` holds the fresh lists made three lines above, never a state's value",
+}
+
+
 class Lost(Exception):
     pass
 
@@ -398,7 +405,10 @@ class Frame:
                 cur = env.get(tg.id, EMPTY)
                 for r in cur:
                     self.mutate(r, "aug", tg, env)
-                # x += y keeps the object (in-place types) or makes a fresh one (immutable types)
+                # x += y keeps the object (in-place types) or makes a fresh one (immutable types); a container takes up the elements
+                if v:
+                    env = dict(env)
+                    env[tg.id] = cur | self.holder(frozenset(step(r, "[]") for r in v)) | (v if isinstance(s.op, (ast.BitOr, ast.BitAnd)) else EMPTY)
             elif isinstance(tg, ast.Attribute):
                 base = self.ev(tg.value, env)
                 for r in base:
@@ -425,6 +435,10 @@ class Frame:
         elif isinstance(s, ast.Return):
             if s.value is not None:
                 self.ret |= self.ev(s.value, env)
+                if isinstance(s.value, ast.Name):
+                    for k, v in env.items():
+                        if k.startswith(s.value.id + "."):
+                            self.ret |= self.holder(v)
         elif isinstance(s, ast.If):
             self.ev(s.test, env)
             saved = dict(self.narrow)
@@ -511,6 +525,8 @@ class Frame:
             env[tg.id] = frozenset(v)
             for k in [k for k in self.narrow if k == tg.id or k.startswith(tg.id + ".")]:
                 del self.narrow[k]
+            for k in [k for k in env if k.startswith(tg.id + ".")]:
+                del env[k]
             self.tenv[tg.id] = t if tg.id not in self.tenv or self.tenv[tg.id] == t else self._tjoin(self.tenv[tg.id], t)
         elif isinstance(tg, (ast.Tuple, ast.List)):
             # unpacking: every target may receive any element
@@ -522,12 +538,19 @@ class Frame:
                 for x in tg.elts:
                     env = self.assign(x.value if isinstance(x, ast.Starred) else x, elems, t, env, None)
         elif isinstance(tg, ast.Attribute):
-            for r in self.ev(tg.value, env):
+            base = self.ev(tg.value, env)
+            for r in base:
                 self.setattr_(r, tg.attr, "set", tg.value, env)
+            if isinstance(tg.value, ast.Name) and not any(r[0] in ("o", "s") for r in base):
+                env = dict(env)           # a field of a fresh local object: tracked as a variable of its own, `name.attr`
+                env[tg.value.id + "." + tg.attr] = frozenset(v)
         elif isinstance(tg, ast.Subscript):
             self.ev(tg.slice, env)
             for r in self.ev(tg.value, env):
                 self.mutate(r, "item", tg.value, env)
+            if isinstance(tg.value, ast.Name) and v:
+                env = dict(env)
+                env[tg.value.id] = env.get(tg.value.id, EMPTY) | self.holder(v)
         elif isinstance(tg, ast.Starred):
             env = self.assign(tg.value, v, t, env, None)
         return env
@@ -551,7 +574,7 @@ class Frame:
         return "param:" + root
 
     def record(self, root, path, attr0, wk, detail):
-        if root not in self.f.params:
+        if root not in self.f.params or (self.f.qual, detail) in EXEMPT:
             return
         origin = (self.owner_of_root(root), attr0, wk)
         ex = self.an.sites.setdefault(origin, set())
@@ -660,9 +683,10 @@ class Frame:
 
     def ev_Attribute(self, n, env):
         base = self.ev(n.value, env)
+        field = env.get(n.value.id + "." + n.attr, EMPTY) if isinstance(n.value, ast.Name) else EMPTY
         if not base:
-            return EMPTY
-        out = set()
+            return field
+        out = set(field)
         for r in base:
             out.add(step(r, n.attr))
         # a property of the library: its getter runs on the object
@@ -1051,6 +1075,18 @@ class Frame:
             for a in list(args) + [v for k, v in kwargs.items()]:
                 held |= a
             return self.holder(held)
+        key = _dotted(fn.value) if isinstance(fn, ast.Attribute) else "?"
+        if isinstance(fn, ast.Attribute) and key in env and not cands:
+            # a local container takes up what is put into it
+            put = set()
+            if fn.attr in ("append", "add", "insert", "appendleft", "setdefault", "__setitem__", "put"):
+                for a in args:
+                    put |= self.holder(a)
+            elif fn.attr in ("extend", "update", "extendleft", "union", "__ior__", "__iadd__"):
+                for a in list(args) + [v for k, v in kwargs.items()]:
+                    put |= self.holder(frozenset(step(r, "[]") for r in a))
+            if put:
+                env[key] = env.get(key, EMPTY) | put
         if isinstance(fn, ast.Attribute) and recv:
             m = fn.attr
             typed_lib = bool(self.ty(fn.value, env))
